@@ -277,6 +277,9 @@ func c13Reaction(c *Ctx, p *Prog, m *Model) {
 		for _, why := range unprovenPositions(p, m, fn) {
 			probs3 = append(probs3, why)
 		}
+		for _, why := range uncomparableCompares(p, fn) {
+			probs3 = append(probs3, why)
+		}
 		r.Check(len(probs3) == 0, "R13.3", "fn:"+name, p.FuncPos(fn), "no explicit failure construct on the failure path", strings.Join(probs3, "; "))
 		r.Check(len(probs4) == 0, "R13.4", "fn:"+name, p.FuncPos(fn), "stores nothing but locals", "failure handling leaves state behind: "+strings.Join(probs4, "; "))
 	}
@@ -461,4 +464,50 @@ func unprovenPositions(p *Prog, m *Model, fn *ssa.Function) []string {
 		}
 	}
 	return out
+}
+
+// uncomparableCompares: == / != between two interface values (neither the nil constant) whose interface type has an
+// implementation in the repository with an uncomparable underlying type (a slice such as the writer list): the
+// comparison panics at run time when both hold that type.
+func uncomparableCompares(p *Prog, fn *ssa.Function) []string {
+	var out []string
+	for _, b := range fn.Blocks {
+		for _, in := range b.Instrs {
+			bo, ok := in.(*ssa.BinOp)
+			if !ok || (bo.Op != token.EQL && bo.Op != token.NEQ) || isNilConst(bo.X) || isNilConst(bo.Y) {
+				continue
+			}
+			ix, okx := bo.X.Type().Underlying().(*types.Interface)
+			iy, oky := bo.Y.Type().Underlying().(*types.Interface)
+			if !okx || !oky {
+				continue
+			}
+			for _, it := range []*types.Interface{ix, iy} {
+				if it.NumMethods() == 0 {
+					continue
+				}
+				for _, mem := range p.Slog.Members {
+					tn, ok := mem.(*ssa.Type)
+					if !ok {
+						continue
+					}
+					t := tn.Type()
+					if types.Comparable(t) || !(types.Implements(t, it) || types.Implements(types.NewPointer(t), it)) {
+						continue
+					}
+					if types.Implements(t, it) {
+						out = append(out, fmt.Sprintf("%s %s %s at %s compares two interface values that can both hold the uncomparable type %s: the comparison panics at run time", p.valShort(bo.X), bo.Op, p.valShort(bo.Y), p.Pos(instrPos(bo)), tn.Name()))
+					}
+				}
+			}
+		}
+	}
+	return dedupStr(out)
+}
+
+func (p *Prog) valShort(v ssa.Value) string {
+	if v == nil {
+		return "?"
+	}
+	return v.Name()
 }
